@@ -265,6 +265,10 @@ func (f *FSM) openDBFile(dbPath string) error {
 	}
 
 	f.db = boltDB
+
+	// Whatever the fast transaction tracker has recorded does not describe
+	// this database: start over from the index it has been applied up to.
+	f.fastTxnTracker.reset(f.latestIndex.Load())
 	return nil
 }
 
